@@ -79,12 +79,17 @@ class _Finder(importlib.abc.MetaPathFinder, importlib.abc.Loader):
 
     def exec_module(self, module):
         name = module.__name__
-        module.__file__ = self.snap.paths[name]
+        # The simulated installation directory is the simulated working directory (as in
+        # `cd repo && python tool.py`): code that locates inputs/ or outputs/ next to its own
+        # file lands on the simulated disk, not in the real repository.  Tracebacks and the
+        # step clock still see the real source path (co_filename).
+        module.__file__ = os.path.join(SCRIPT_DIR or os.path.dirname(self.snap.paths[name]), name + ".py")
         exec(self.snap.codes[name], module.__dict__)
 
 
 _SNAP = None
 _FINDER = None
+SCRIPT_DIR = None       # set by the world to its scratch root
 
 
 def install(snap):
